@@ -710,9 +710,12 @@ class DirectionalConvexHull:
         directional_distances[~below_directional_convex_hull] = np.min(
             all_directional_distances[~below_directional_convex_hull], axis=1
         )
-        # some distances can be positive, so we take the max of all negative distances
+        # only the facets violated beyond the tolerance count for a point below the hull,
+        # so we take the max of the distances that are below -tolerance
         negative_directional_distances = all_directional_distances.copy()
-        negative_directional_distances[all_directional_distances > 0] = -np.inf
+        negative_directional_distances[
+            all_directional_distances >= -self.tolerance
+        ] = -np.inf
         directional_distances[below_directional_convex_hull] = np.max(
             negative_directional_distances[below_directional_convex_hull], axis=1
         )
